@@ -78,3 +78,29 @@ Definition para_subst (d : nat) (coords : list (list Q)) (o : nat) (units : list
 Definition para_pairs (d : nat) (dphis : list (list poly)) (coords : list (list Q)) (o : nat) (units : list nat) : list (poly * poly) :=
   map (fun ij => (psubstn (para_subst d coords o units) (isoJ_poly d dphis (fst ij) (snd ij)),
                   psub (pvar (node_var d (nth (snd ij) units 0%nat) (fst ij))) (pvar (node_var d o (fst ij))))) (idx2 d).
+
+(* ---- strictly convex quadrilaterals (vertices in the cyclic order of RefQuad): det J is the bilinear interpolant of the four
+   corner-triangle determinants, and the un-normalised normal points away from the opposite vertices *)
+Definition orient_poly (a b c : nat) : poly :=
+  psub (pmul (psub (pvar (node_var 2 b 0)) (pvar (node_var 2 a 0))) (psub (pvar (node_var 2 c 1)) (pvar (node_var 2 a 1))))
+       (pmul (psub (pvar (node_var 2 b 1)) (pvar (node_var 2 a 1))) (psub (pvar (node_var 2 c 0)) (pvar (node_var 2 a 0)))).
+(* corner k of the cycle 0 1 2 3: the triangle (P_k, P_next, P_prev) *)
+Definition corner_poly (k : nat) : poly := orient_poly k ((k + 1) mod 4) ((k + 3) mod 4).
+(* weight of a corner with reference coordinates (cx, cy) in {0,1}^2 *)
+Definition wpoly (c : bool * bool) : poly :=
+  pmul (if fst c then pvar 0 else psub (pconst 1) (pvar 0)) (if snd c then pvar 1 else psub (pconst 1) (pvar 1)).
+Fixpoint bilin_poly (k : nat) (flags : list (bool * bool)) : poly :=
+  match flags with [] => [] | c :: t => padd (pmul (corner_poly k) (wpoly c)) (bilin_poly (S k) t) end.
+Definition detJ_poly (det : (nat -> nat -> poly) -> poly) (dphis : list (list poly)) : poly :=
+  det (fun i j => isoJ_poly 2 dphis i j).
+Definition detJ_pairs (det : (nat -> nat -> poly) -> poly) (dphis : list (list poly)) (flags : list (bool * bool)) : list (poly * poly) :=
+  [(detJ_poly det dphis, bilin_poly 0 flags)].
+(* nu . (P_k - G(xi)) for the un-normalised normal nu = adj(J)^T N_s at the facet point *)
+Definition nu_dot_to_vertex (adj : (nat -> nat -> poly) -> nat -> nat -> poly) (dphis : list (list poly)) (psis : list poly)
+           (fi : facet_inst) (k : nat) : poly :=
+  let Jf := fun i j => pnorm (on_facet 2 (fi_Y fi) (isoJ_poly 2 dphis i j)) in
+  let nu := fun j => psum (map (fun i => pscale (nth i (fi_N fi) 0%Q) (adj Jf i j)) (seq 0 2)) in
+  psum (map (fun i => pmul (nu i) (psub (pvar (node_var 2 k i)) (isoG_poly 2 psis fi i))) (seq 0 2)).
+(* (nu . (P_k - G), - corner determinant m) for the listed (opposite vertex k, corner m) of a facet *)
+Definition outward_pairs adj dphis psis (fo : facet_inst * list (nat * nat)) : list (poly * poly) :=
+  map (fun km => (nu_dot_to_vertex adj dphis psis (fst fo) (fst km), popp (corner_poly (snd km)))) (snd fo).
